@@ -65,9 +65,9 @@ def isError (e : PErr) : Outcome → Bool
   | .error e' => e == e'
   | _ => false
 
-/-- D11: `ZINTER -1 k1` -/
-theorem negative_numkeys_panics :
-    outcomeIsPanic (runGrammar Generated.grammar_ZInter [asciiBytes "-1", asciiBytes "k1"]) = true := by
+/-- D11 (repaired): the arguments `-1 k1` of `ZINTER` are refused with `ErrInvalidArgNum` -/
+theorem negative_numkeys_is_refused :
+    isError .invalidArgNum (runGrammar Generated.grammar_ZInter [asciiBytes "-1", asciiBytes "k1"]) = true := by
   decide +kernel
 
 /-- D13: `parser.Enum` compares exactly -/
